@@ -1,14 +1,16 @@
 (* C07 — No heap allocation in steady state.  The part that is logic (sizes of storage,
    capacity of the processor's vectors); allocator behaviour itself is observed by the
    harness (counting GlobalAlloc), not proved.  Only property theorems here. *)
-Require Import List Arith.
+Require Import List Arith Permutation.
 From Dasp Require Import Base.Res Ring.Bounded Ring.BoundedSpec Ring.BoundedProofs
-  Ring.Fixed Ring.FixedSpec Ring.FixedProofs Alloc.Caps.
+  Ring.Fixed Ring.FixedSpec Ring.FixedProofs Alloc.Caps
+  Signal.Bus Signal.BusSpec Alloc.BusBacklog
+  Graph.Dfs Graph.Process Graph.ProcessSpec Alloc.ProcessorCaps.
 Import ListNotations.
 
 (* user-supplied (possibly heap-backed) ring-buffer storage is never resized, by any history *)
-Theorem c07_bounded_storage_const : forall (A : Type) (ops : list (op A)) (b : bounded A), Inv b ->
-  exists b' vs, run b ops = Ok (b', vs) /\ length (data b') = length (data b).
+Theorem c07_bounded_storage_const : forall (A : Type) (ops : list (BoundedSpec.op A)) (b : bounded A), BoundedSpec.Inv b ->
+  exists b' vs, BoundedSpec.run b ops = Ok (b', vs) /\ length (data b') = length (data b).
 Proof. exact @bounded_storage_const. Qed.
 Print Assumptions c07_bounded_storage_const.
 
@@ -32,3 +34,96 @@ Theorem c07_vec_steady : forall (ops : list vop) (v : vec), vlen v <= vcap v ->
   snd (vrun (vclear v1) ops) = 0 /\ vcap (fst (vrun (vclear v1) ops)) = vcap v1.
 Proof. exact vrun_steady. Qed.
 Print Assumptions c07_vec_steady.
+
+(* ---- the bus (documented exception: it owns a growable backlog) ---- *)
+
+(* the backlog is exactly as long as the maximum lag over the live outputs (0 if none): it
+   holds only what laggards still need, so it is bounded by any bound on the lag *)
+Theorem c07_bus_backlog_le_max_lag :
+  forall (F : Type) (f : nat -> F) (ops : list Bus.op) (s : @Bus.st F) (tr : list (@Bus.ev F)),
+  Bus.run f ops Bus.init = Ok (s, tr) ->
+  (forall L : nat,
+     (forall k a : nat, is_live s k -> In (ESend k a) tr -> pulled s - (a + received k tr) <= L) ->
+     length (buf s) <= L) /\
+  length (buf s) = max_lag s /\
+  (forall k : nat, is_live s k -> exists n : nat, pending_frames s k = Ok n /\ In n (lags s)).
+Proof. exact @bus_backlog_le_max_lag. Qed.
+Print Assumptions c07_bus_backlog_le_max_lag.
+
+(* "the backlog stops growing once its outputs are pulled in step": under lock-step pulling
+   (rounds of one next per live output in any order; sends, drops and pending queries only
+   between rounds) the backlog is empty at every round boundary and never longer than one frame,
+   for any number of rounds and outputs *)
+Theorem c07_bus_lockstep_backlog_le_1 :
+  forall (F : Type) (f : nat -> F) (s : @Bus.st F) (phs : list phase),
+  Inv f s -> caught_up s ->
+  lockstep (nk s) (keys (fr s)) phs ->
+  (forall phs1 phs2 : list phase, phs = phs1 ++ phs2 ->
+     exists (s1 : @Bus.st F) (tr1 : list (@Bus.ev F)),
+       Bus.run f (flat phs1) s = Ok (s1, tr1) /\ caught_up s1 /\ buf s1 = []) /\
+  (forall pre post : list op, flat phs = pre ++ post ->
+     exists (s1 : @Bus.st F) (tr1 : list (@Bus.ev F)),
+       Bus.run f pre s = Ok (s1, tr1) /\ length (buf s1) <= 1).
+Proof. exact @bus_lockstep_backlog_le_1. Qed.
+Print Assumptions c07_bus_lockstep_backlog_le_1.
+
+(* ---- the graph processor: its two vectors, driven by the C09 traversal model ---- *)
+
+(* the push/pop/clear scripts one process call applies to the DFS stack and to the inputs
+   vector depend on the graph and the output node only, not on the processor's prior state *)
+Theorem c07_processor_scripts_indep : forall (W B : Type) (bufs : W -> B) (nproc : W -> list B -> W)
+  (p1 p2 : processor) (g : graph W) (out : nat), wf g -> live g out = true ->
+  process_ops bufs nproc p1 g out = process_ops bufs nproc p2 g out.
+Proof. exact @process_ops_indep. Qed.
+Print Assumptions c07_processor_scripts_indep.
+
+(* the scripts are faithful to the traversal model *)
+Theorem c07_processor_scripts_faithful : forall (W B : Type) (bufs : W -> B) (nproc : W -> list B -> W)
+  (p : processor) (g : graph W) (out : nat) p' g' log,
+  process bufs nproc p g out = Ok (p', g', log) ->
+  (forall l0, len_after l0 (fst (process_ops bufs nproc p g out)) = length (stack (dfs p'))) /\
+  snd (process_ops bufs nproc p g out) = inputs_script log.
+Proof. exact @process_ops_faithful. Qed.
+Print Assumptions c07_processor_scripts_faithful.
+
+(* "allocates nothing once a processor has processed a graph of that size once": after ONE call
+   (vectors of any capacity, processor in any state) every further call on the same graph and
+   output node reallocates neither vector and leaves both capacities unchanged - every
+   multigraph, no size bound *)
+Theorem c07_processor_steady : forall (W B : Type) (bufs : W -> B) (nproc : W -> list B -> W)
+  (p0 : processor) (ps : list processor) (g : graph W) (out : nat) (vs vi : vec),
+  wf g -> live g out = true -> vlen vs <= vcap vs -> vlen vi <= vcap vi ->
+  let vs1 := fst (vrun vs (fst (process_ops bufs nproc p0 g out))) in
+  let vi1 := fst (vrun vi (snd (process_ops bufs nproc p0 g out))) in
+  snd (vrun vs1 (stack_calls bufs nproc ps g out)) = 0 /\
+  vcap (fst (vrun vs1 (stack_calls bufs nproc ps g out))) = vcap vs1 /\
+  snd (vrun vi1 (inputs_calls bufs nproc ps g out)) = 0 /\
+  vcap (fst (vrun vi1 (inputs_calls bufs nproc ps g out))) = vcap vi1.
+Proof. exact @processor_steady. Qed.
+Print Assumptions c07_processor_steady.
+
+(* high-water marks: the stack needs at most 1 + |V| + |E| entries (a node can be stacked once
+   per incoming edge), the inputs vector at most the maximum in-degree *)
+Theorem c07_stack_high_water : forall (W B : Type) (bufs : W -> B) (nproc : W -> list B -> W)
+  (p : processor) (g : graph W) (out : nat), wf g -> live g out = true ->
+  high_water 0 (fst (process_ops bufs nproc p g out)) < fuel_of g /\
+  high_water 0 (fst (process_ops bufs nproc p g out)) <= 1 + length (slots g) + length (edges g).
+Proof. exact @stack_high_water. Qed.
+Print Assumptions c07_stack_high_water.
+
+Theorem c07_inputs_high_water : forall (W B : Type) (bufs : W -> B) (nproc : W -> list B -> W)
+  (p : processor) (g : graph W) (out : nat), wf g -> live g out = true ->
+  high_water 0 (snd (process_ops bufs nproc p g out)) <= max_in_degree g.
+Proof. exact @inputs_high_water. Qed.
+Print Assumptions c07_inputs_high_water.
+
+(* Processor::with_capacity(n) with n covering those marks never reallocates at all *)
+Theorem c07_with_capacity_no_realloc : forall (W B : Type) (bufs : W -> B) (nproc : W -> list B -> W)
+  (ps : list processor) (g : graph W) (out n : nat),
+  wf g -> live g out = true -> fuel_of g <= S n -> max_in_degree g <= n ->
+  snd (vrun {| vlen := 0; vcap := n |} (stack_calls bufs nproc ps g out)) = 0 /\
+  vcap (fst (vrun {| vlen := 0; vcap := n |} (stack_calls bufs nproc ps g out))) = n /\
+  snd (vrun {| vlen := 0; vcap := n |} (inputs_calls bufs nproc ps g out)) = 0 /\
+  vcap (fst (vrun {| vlen := 0; vcap := n |} (inputs_calls bufs nproc ps g out))) = n.
+Proof. exact @with_capacity_no_realloc. Qed.
+Print Assumptions c07_with_capacity_no_realloc.
